@@ -8,7 +8,7 @@ FIELDS = [
     ("b_cfgdesc_cache", "list obj"), ("b_cfgval_cache", "dict (option Z)"),
     ("b_descriptors", "dict descr"), ("b_descriptor_objs", "dict (dict dks)"),
     ("b_seq", "dict Z"), ("b_seq_copy", "dict Z"),
-    ("b_monitors", "dict nat"), ("b_sres_keys", "list (uid * key)"),
+    ("b_monitors", "dict nat"), ("b_mon_susp", "nat"), ("b_sres_keys", "list (uid * key)"),
     ("b_run_open", "bool"), ("b_uncollected", "list obj"), ("b_declared", "list (list obj * list name)"), ("b_local", "list obj"),
     ("b_int", "option (option descr)"), ("b_int_counter", "nat"),
     ("b_composed", "bool"), ("b_streams", "dict (list key)"), ("b_poison", "bool"),
